@@ -478,15 +478,28 @@ def check_runs(ctx, runs, binary):
         if r['rc'] == 0 and os.path.exists(r['trace']):
             good.append(r)
             continue
-        out2 = r['trace'] + '.rerun'
-        rc2, o2 = run_harness(binary, r['prog'], out2, r['nw'], r['seed'], r['strat'])
-        if rc2 == r['rc']:
-            kind = {3: 'DEADLOCK', 4: 'CRASH', 5: 'HANG', 124: 'TIMEOUT'}.get(r['rc'], 'exit %d' % r['rc'])
+        # a harness-level failure is a verdict only if a re-run from the same seed repeats it
+        rcs = []
+        for attempt in range(3):
+            out2 = r['trace'] + '.rerun%d' % attempt
+            rc2, o2 = run_harness(binary, r['prog'], out2, r['nw'], r['seed'], r['strat'])
+            rcs.append(rc2)
+            if rc2 == r['rc'] or rc2 == 0:
+                break
+        if rcs[-1] == r['rc']:
+            kind = {3: 'DEADLOCK', 4: 'CRASH', 5: 'HANG', 6: 'HANG after the trace was closed (finalisation never ends)', 124: 'TIMEOUT'}.get(r['rc'], 'exit %d' % r['rc'])
             r['verdict'] = kind
             r['bad'] = True
             good.append(r)   # its (truncated) trace is still validated: the rejection point localises the cause
+        elif rcs[-1] == 0 and os.path.exists(out2):
+            # not repeatable (the part of a run after the trace is closed is not serialized): the trace of the
+            # re-run is validated like any other; the episode is recorded in the evidence
+            ctx.cov.setdefault('unrepeatable_harness_failures', []).append({'rc': r['rc'], 'reruns': rcs, 'nw': r['nw'], 'seed': r['seed'], 'strat': r['strat'], 'prog': os.path.basename(r['prog'])})
+            ctx.log('note: harness failure rc=%d not repeated by re-runs %s (nw=%d seed=%d)' % (r['rc'], rcs, r['nw'], r['seed']))
+            r = dict(r, rc=0, trace=out2)
+            good.append(r)
         else:
-            raise Infra('non-reproducible harness failure rc=%d then %d: %s' % (r['rc'], rc2, r['stderr']))
+            raise Infra('inconsistent harness failures rc=%d then %s: %s' % (r['rc'], rcs, r['stderr']))
     return good
 
 
@@ -874,7 +887,7 @@ def check_C08(ctx):
 
 
 def check_C09(ctx):
-    std_check(ctx, [('MC_Sync', 'MC_Sync_felock.cfg')], gen_felock_prog, 30, 6,
+    std_check(ctx, [('MC_Sync', 'MC_Sync_felock.cfg'), ('MC_Sync', 'MC_Sync_felockr.cfg')], gen_felock_prog, 30, 6,
               [('status_not_published', mut_first(ev('FeMark'), drop_at)),
                ('returns_with_wrong_status', mut_first(lambda e: e['e'] == 'FeChk' and e['a'][1] != e['a'][2], lambda evs, i: set_arg(1, evs[i]['a'][2])(evs, i))),
                ('unlock_before_signal', mut_pair(lambda a, b: a['e'] == 'CvSignal' and b['e'] == 'SqDeq', lambda evs, i: drop_at(evs, i)))],
@@ -1389,6 +1402,16 @@ def gen_jc_prog(rng):
 
 
 def gen_uncond_prog(rng):
+    if rng.random() < 0.25:
+        # fan-out: one thread signals many variables, each with its own waiter, without blocking in between: every
+        # signal pushes a woken thread onto the signaller's run queue (in the small-queue build up to the re-centring)
+        n = rng.randint(9, 13)
+        cons = [[(OP['UCWAIT'], i, 0, 0)] for i in range(n)]
+        order = list(range(n)); rng.shuffle(order)
+        prod = [(OP['UCSIG'], i, 10 + i, 0) for i in order]
+        if rng.random() < 0.5:
+            prod = [(OP['YD'], 2, 0, 0)] * rng.randint(1, 3) + prod     # give the waiters time to go to sleep first
+        return {'init': [], 'bodies': _spawn_join(rng, cons + [prod])}
     k = rng.choice((1, 2, 3, 4, 6, 12, 20))
     prod = [(OP['UCSIG'], 0, 10 + i, 0) for i in range(k)]
     cons = [(OP['UCWAIT'], 0, 0, 0) for _ in range(k)]
@@ -1401,6 +1424,20 @@ def gen_uncond_prog(rng):
 
 
 def gen_felock_prog(rng):
+    if rng.random() < 0.35:
+        # readers: the status is left as it is (wait for full, mark full again) by several threads that may all be
+        # asleep when the single writer fills the slot: every mark must pass the wake-up on
+        nr = rng.randint(2, 4)
+        bodies = [[(OP['FEWL'], 0, 0, 2), (OP['FEMS'], 0, 1, 0)]]
+        for _ in range(nr):
+            ops = []
+            for _ in range(rng.randint(1, 2)):
+                ops += [(OP['FEWL'], 0, 1, 0), (OP['FEMS'], 0, 1, 0)]
+                if rng.random() < 0.3:
+                    ops.append((OP['YD'], rng.choice((0, 1, 2)), 0, 0))
+            bodies.append(ops)
+        rng.shuffle(bodies)
+        return {'init': [], 'bodies': _spawn_join(rng, bodies)}
     np_, nc = rng.randint(1, 3), rng.randint(1, 3)
     items = rng.randint(max(np_, nc), 6)
 
@@ -1430,7 +1467,8 @@ def gen_tls_prog(rng, churn=False):
     across yields (migrations), terminate by return, exit or cancellation; invalid indices are probed."""
     ops = []
     slot = 100
-    fill = rng.choice((0, 0, 3, 15, 16, 17, 63, 64, 255, 256, 257, 300, 511, 767, 1019)) if not churn else rng.choice((0, 2))
+    # (12..14, 28, 61.., 253..: the keys under test straddle a leaf / node boundary of the tree, slot 15 of a leaf included)
+    fill = rng.choice((0, 0, 3, 12, 13, 14, 15, 16, 17, 28, 29, 61, 62, 63, 64, 253, 254, 255, 256, 257, 300, 511, 767, 1019)) if not churn else rng.choice((0, 2))
     for i in range(fill):
         ops.append((OP['KCREATE'], slot, rng.choice((0, 1, 2, 3)), 0)); slot += 1
     nk = rng.randint(2, 5)
@@ -1477,14 +1515,24 @@ def gen_tls_prog(rng, churn=False):
             b.append((OP['TESTCANCEL'], 0, 0, 0)); cancelled.append(t)
         bodies.append(b)
     main = list(ops)
-    main += [(OP['CR'], t, rng.choice((0, 0, F_PF)), 0) for t in range(1, nt + 1)]
-    if rng.random() < 0.3:
-        main.append((OP['KDELETE'], rng.randrange(nk), 0, 0))     # delete a key while threads may hold values under it
-    main += [(OP['KSET'], 0, 99, 0), (OP['KGET'], 0, 0, 0)]
-    for t in cancelled:
-        main.append((OP['CANCEL'], t, 0, 0))
-    order = list(range(1, nt + 1)); rng.shuffle(order)
-    main += [(OP['JN'], t, 0, 0) for t in order]
+    if not churn and rng.random() < 0.5:
+        # one thread after the other: descriptors (and the key-tree storage embedded in them) are recycled, so a later
+        # thread works on memory that holds an earlier thread's values
+        for t in range(1, nt + 1):
+            main.append((OP['CR'], t, rng.choice((0, 0, F_PF)), 0))
+            if t in cancelled:
+                main.append((OP['CANCEL'], t, 0, 0))
+            main.append((OP['JN'], t, 0, 0))
+        main += [(OP['KSET'], 0, 99, 0), (OP['KGET'], 0, 0, 0)]
+    else:
+        main += [(OP['CR'], t, rng.choice((0, 0, F_PF)), 0) for t in range(1, nt + 1)]
+        if rng.random() < 0.3:
+            main.append((OP['KDELETE'], rng.randrange(nk), 0, 0))     # delete a key while threads may hold values under it
+        main += [(OP['KSET'], 0, 99, 0), (OP['KGET'], 0, 0, 0)]
+        for t in cancelled:
+            main.append((OP['CANCEL'], t, 0, 0))
+        order = list(range(1, nt + 1)); rng.shuffle(order)
+        main += [(OP['JN'], t, 0, 0) for t in order]
     main += [(OP['KGET'], 0, 0, 0), (OP['KDELETE'], 0, 1, 2000), (OP['KDELETE'], 1, 0, 0), (OP['KDELETE'], 1, 0, 0)]
     return {'init': [], 'bodies': [main] + bodies}
 
@@ -1493,8 +1541,21 @@ def gen_timed_prog(rng):
     """sleep (valid and malformed durations), timedlock against a holder that releases before / after the
     deadline, timedjoin against a target that finishes before / after the deadline; other threads keep running"""
     bodies = []
-    kind = rng.choice(('sleep', 'sleep', 'tlock', 'tlock', 'tjoin', 'mix'))
+    kind = rng.choice(('sleep', 'sleep', 'tlock', 'tlock', 'tjoin', 'mix', 'longsleep'))
     main_extra = []
+    if kind == 'longsleep':
+        # usleep / sleep with long durations (the virtual clock advances by up to 0.7 s per reading): values around the
+        # points where 32-bit microsecond arithmetic wraps (2^32 / 1000 us) and around whole seconds
+        for _ in range(rng.randint(1, 2)):
+            b = []
+            for _ in range(rng.randint(1, 3)):
+                if rng.random() < 0.7:
+                    b.append((OP['SLEEP'], 0, rng.choice((0, 1, 999999, 1000000, 1000001, 2147483, 2147484, 4294967, 4294968, 4300000, 8589935, 9999999)), 1))
+                else:
+                    b.append((OP['SLEEP'], rng.choice((0, 1, 2, 5)), 0, 2))
+            bodies.append(b)
+        bodies.append([(OP['YD'], 2, 0, 0)] * rng.randint(1, 6))
+        return {'init': [(5, 0, 700)], 'bodies': _spawn_join(rng, bodies)}
     if kind in ('sleep', 'mix'):
         for _ in range(rng.randint(1, 3)):
             b = []
